@@ -125,6 +125,8 @@ func runC13(c *Ctx) {
 		"observed isolation between channels under real stalls (timing)",
 		"that the transport error which made a write fail is also seen by the reader (environment)")
 	m := buildTermModel(c)
+	// a channel whose transport has stalled or failed is still torn down (= R12.4): the teardown typestate of Channel.run
+	defer ruleChannelTeardown(c, m, "R13.5")
 
 	ruleLoopNonBlocking(c, "R13.1")
 
@@ -286,6 +288,14 @@ func ruleLoopNonBlocking(c *Ctx, rule string) {
 			if nSend != 1 {
 				ok = false
 			}
+			// the enqueue is attempted for every item: no return is reachable without going through the select (a
+			// remembered condition — "congested", "failed before" — that makes write give up early silences the channel
+			// for as long as the condition sticks)
+			selIn := ops[0].Instr
+			if _, early := pathFromEntryAvoiding(w, func(in ssa.Instruction) bool { _, isRet := in.(*ssa.Return); return isRet }, func(in ssa.Instruction) bool { return in == selIn }); early {
+				ok = false
+				detail = "— it can return without attempting the enqueue (an item is discarded on a condition other than `queue full` / `channel closed`)"
+			}
 		}
 		r.Check(ok, rule, "Channel.write select", c.Pos(w.Pos()), "non-blocking select{chWrite<-what; <-ctx.Done(); default}",
 			"Channel.write must be a single non-blocking select (default case) sending the item unchanged on the channel's queue; a blocking enqueue lets one stalled channel stall the node loop "+detail)
@@ -421,6 +431,21 @@ func ruleQueue(c *Ctx, rule string, minCap int64) {
 		}
 	}
 	r.Check(len(senders) == 1 && senders[0] == "Channel.write", rule, "Channel.chWrite senders", "-", "only Channel.write enqueues", fmt.Sprintf("queue senders are %v, expected only Channel.write (a second producer breaks per-goroutine FIFO order / drop accounting)", senders))
+	// the producer function itself is called by the node loop only: one goroutine enqueues, in the order it received the
+	// requests (an item re-enqueued by the writer goroutine, e.g. to retry it, lands behind items submitted later)
+	if wf := c.FnOpt("root", "Channel.write"); wf != nil {
+		var who []string
+		okWho := true
+		for _, s := range c.callersOf(wf) {
+			n := fnLocalName(s.Fn)
+			who = append(who, n)
+			if n != "Node.run" && !strings.HasPrefix(n, "Node.run$") {
+				okWho = false
+			}
+		}
+		r.Check(okWho && len(who) > 0, rule, "Channel.write callers", "-", fmt.Sprintf("called only from the node loop (%d sites)", len(who)),
+			fmt.Sprintf("Channel.write is called from %v: only the node loop may enqueue (a second producer goroutine breaks the per-goroutine submission order)", who))
+	}
 	r.Check(len(receivers) == 1 && receivers[0] == "Channel.runWriter", rule, "Channel.chWrite receivers", "-", "only runWriter dequeues", fmt.Sprintf("queue receivers are %v, expected only Channel.runWriter (two consumers reorder frames / interleave bytes)", receivers))
 	if rw := c.FnOpt("root", "Channel.runWriter"); rw != nil {
 		sites := c.callersOf(rw)
@@ -950,7 +975,13 @@ func runC10(c *Ctx) {
 		for _, s := range sites {
 			ws = append(ws, fnLocalName(s.Fn))
 		}
-		r.Check(ok, "R10.2", ls.fn+" launch sites", "-", "exactly one launch site: "+strings.Join(ws, ","), fmt.Sprintf("%s is launched from %v, expected exactly one site in %s (a second launch duplicates open/close events)", ls.fn, ws, ls.where))
+		why := fmt.Sprintf("%s is launched from %v, expected exactly one site in %s (a second launch duplicates open/close events)", ls.fn, ws, ls.where)
+		if ok && ls.fn != "Channel.start" && inLoop(sites[0].Call.Block()) {
+			// Channel.start's site is inside the node loop (one start per new channel); the other two run once per channel
+			ok = false
+			why = fmt.Sprintf("%s is called inside a loop in %s (%s): it runs more than once for the same channel, so its open / close events are emitted more than once", ls.fn, fnLocalName(sites[0].Fn), c.Pos(sites[0].Call.Pos()))
+		}
+		r.Check(ok, "R10.2", ls.fn+" launch sites", "-", "exactly one launch site, run once per channel: "+strings.Join(ws, ","), why)
 	}
 
 	// R10.3 close last, once
@@ -983,7 +1014,7 @@ func runC10(c *Ctx) {
 	r.Check(okP, "R10.5", "Node.pushEvent select", c.Pos(push.Pos()), "select{chEvent <- evt; <-terminate}", "pushEvent must be a blocking select {chEvent<-evt; <-terminate} without default: a default case or a different value drops/duplicates events")
 
 	// R10.6 authenticated only: the channel's reader is built with the node's incoming key
-	r.Rule("R10.6", "the reader each channel reads from is constructed in Channel.initialize from the channel's own transport with the node's dialect and incoming key; runReader reads frames only from it", 2)
+	r.Rule("R10.6", "the reader each channel reads from is constructed in Channel.initialize from the channel's own transport with the node's dialect and incoming key; runReader reads frames only from it, and no other Channel method consumes the incoming bytes", 3)
 	if ini := c.Fn("root", "Channel.initialize"); ini != nil {
 		ok := false
 		got := ""
@@ -999,6 +1030,23 @@ func runC10(c *Ctx) {
 	ruleKeyPlumbing(c, "R10.7")
 	reads := callsNamed(rd, "(frame.Reader).Read")
 	r.Check(len(reads) == 1 && ex(reads[0].Common().Args[0]) == "recv.frameWriter.Reader", "R10.6", "runReader read source", c.Pos(rd.Pos()), "reads only from ch.frameWriter", "runReader must read frames from exactly one source, the channel's own frame reader")
+	// nothing else in Channel's methods consumes the incoming byte stream behind the frame reader's back (a resync or
+	// skip helper that discards buffered bytes can swallow valid frames, which then never become frame events)
+	side := ""
+	for _, fn := range rootFns(c) {
+		if !strings.HasPrefix(fnLocalName(fn), "Channel.") {
+			continue
+		}
+		for _, ci := range callsIn(fn, func(n string, cc *ssa.CallCommon) bool {
+			if n == "(bufio.Reader).Discard" || n == "(bufio.Reader).Read" || n == "(bufio.Reader).ReadByte" || n == "io.ReadFull" || n == "io.ReadAll" || n == "io.Copy" || n == "io.CopyN" {
+				return true
+			}
+			return cc.IsInvoke() && cc.Method.Name() == "Read" && strings.HasSuffix(ex(cc.Value), ".rwc")
+		}) {
+			side = fnLocalName(fn) + " consumes incoming bytes itself at " + c.Pos(ci.Pos()) + " (" + calleeName(ci.Common()) + ")"
+		}
+	}
+	r.Check(side == "", "R10.6", "Channel incoming bytes", "-", "only frame.Reader.Read consumes the channel's incoming bytes", side+": bytes of valid frames can be skipped without producing a frame event")
 }
 
 func exOrNil(v ssa.Value) string {
@@ -1129,18 +1177,49 @@ func checkCloseEvent(c *Ctx, chRun *ssa.Function) {
 		if v == nil {
 			continue
 		}
-		vals := []ssa.Value{v}
-		if p, isPhi := v.(*ssa.Phi); isPhi {
-			vals = p.Edges
+		// every value the field can take is the reader's result or nil (the cause reported is the read side's, never
+		// something remembered from the writer)
+		var leaves []ssa.Value
+		seenPhi := map[ssa.Value]bool{}
+		var collect func(x ssa.Value)
+		collect = func(x ssa.Value) {
+			if p, isPhi := x.(*ssa.Phi); isPhi {
+				if seenPhi[p] {
+					return
+				}
+				seenPhi[p] = true
+				for _, e := range p.Edges {
+					collect(e)
+				}
+				return
+			}
+			leaves = append(leaves, x)
 		}
-		for _, e := range vals {
+		collect(v)
+		fromReader, foreign := false, ""
+		for _, e := range leaves {
+			isReader := false
 			if ext, isE := e.(*ssa.Extract); isE && ext.Tuple == ssa.Value(sel) {
 				for i, st := range sel.States {
 					if rootAlloc(st.Chan) == readerCh && selectRecvValue(sel, i) == ssa.Value(ext) {
-						ok = true
+						isReader = true
 					}
 				}
 			}
+			if u, isU := e.(*ssa.UnOp); isU && u.Op == token.ARROW && rootAlloc(u.X) == readerCh && readerCh != nil {
+				isReader = true
+			}
+			switch {
+			case isReader:
+				fromReader = true
+			case isNilConst(e):
+			default:
+				foreign = ex(e)
+			}
+		}
+		ok = fromReader && foreign == ""
+		if foreign != "" {
+			got += " — can also be " + foreign
 		}
 	}
 	r.Check(ok, "R10.3", "EventChannelClose.Error", c.Pos(chRun.Pos()), "carries the error received from the reader: "+got, "the close event's Error is not the value received from the reader goroutine ("+got+")")
